@@ -163,6 +163,49 @@ def _upload_path(k1, k2, path, si, mi, ti, has_auth, mime_i, restrict, delete_on
     return _judge(fs, before, status, size, content, authorised, path)
 
 
+WARMUP = ["/new.gmi", "/exist.gmi", "/sub/inner.gmi", "/sub/../w.gmi", "/../up-x/sib", "/n1"]
+W2 = ["..", "up-x", "sib", "victim", "exist.gmi", "sub", "n1", "new.gmi", "%2e%2e", "out"]
+NWU = pick(4, len(WARMUP))
+NW2 = pick(6, len(W2))
+
+
+def _one(fs, h, path, size):
+    """one upload (size > 0) or delete (size 0) of ``path`` through handler ``h``; -> property verdict for this step"""
+    line = "titan://h" + path + ";size=%d;mime=text/gemini" % size
+    try:
+        req = TitanRequest.from_line(line)
+    except ValueError:
+        return True
+    content = mk(Fill(size))
+    req.content = content
+    before = _snap(fs)
+    resp, exc = drive(h.handle_upload(req))
+    status = 40 if exc is not None else resp.status
+    return _judge(fs, before, status, size, content, True, path)
+
+
+def warm_upload(k1: int, w: int, wsize: int, s1: int, s2: int, nseg: int, si: int) -> bool:
+    """
+    pre: 0 <= k1 < NK and 0 <= w < NWU and 0 <= s1 < NW2 and 0 <= s2 < NW2 and 1 <= nseg <= 2
+    pre: (wsize == 0 or wsize == 2) and (si == 0 or si == 1)
+    pre: wsize == 2 and (FULL or k1 == 1) and (nseg == 1 or s1 < 3)
+    post: _
+    """
+    # (the second upload carries 1 byte, the first 5: a replaced file always differs from what was there)
+    # the server serves every connection with ONE upload handler: whatever it remembers from an earlier upload or delete
+    # (memoised containment checks, cached directories) must not widen what a later one may touch
+    fs = build(k1, U_FILE)
+    fs.install()
+    try:
+        h = FileUploadHandler(UP, max_size=1000, allowed_types=None, auth_tokens=None, enable_delete=True)
+        if not _one(fs, h, WARMUP[w], SIZES[wsize]):
+            return V(False)
+        segs = [W2[s1], W2[s2]][:nseg]
+        return V(_one(fs, h, "/" + "/".join(segs), SIZES[si]))
+    finally:
+        fs.uninstall()
+
+
 def policy(si: int, mi: int, ti: int, has_auth: bool, mime_i: int, restrict: bool, delete_on: bool, s1: int) -> bool:
     """
     pre: 0 <= si < 4 and 0 <= mi < 2 and 0 <= ti < 3 and 0 <= mime_i < 2
@@ -341,6 +384,11 @@ OBLIGATIONS = [
        functions=FN, stubs=["ModelFS"]),
     Ob("effect3_dotdot", effect3_dotdot, quick=1000, thorough=3000,
        symbolic="kinds of 2 tree entries, path /../<a>/<b> with a in {up-x (prefix-sharing sibling), up, out, .., sub, ''} and b in 5 names, upload or delete",
+       functions=FN, stubs=["ModelFS"]),
+    Ob("warm_upload", warm_upload, quick=600, thorough=3600,
+       symbolic="a first upload / delete out of 4 (quick) / 6 targets (new file, existing file, nested, via '..', refused escape, symbolic "
+                "entry), then a second one of 1-2 segments over 6 (quick) / 10 names incl. '..', the sibling directory and outside files -- "
+                "both through the same handler object",
        functions=FN, stubs=["ModelFS"]),
     Ob("fault", fault, quick=1000, thorough=3000,
        symbolic="kind of 1 tree entry, 7 target paths (existing, new, nested, new directory, symbolic entry, a directory), upload of 5 bytes "
